@@ -43,9 +43,9 @@ Inductive field :=
 Inductive pat := PVar (x : var) | PTup (ps : list pat).
 
 Inductive expr :=
-| EVar (x : var) | ENone | EInt (z : Z) | EStr (t : text) | EKind (k : kind) | EEmpty | ENil
-| EAttr (e : expr) (f : field)
-| ELen (e : expr) | EAdd (a b : expr) | ESub (a b : expr)
+| EVar (x : var) | ENone | EInt (z : Z) | EText (t : text) | EKind (k : kind) | EEmpty | ENil
+| EField (e : expr) (f : field)
+| ELen (e : expr) | EAdd (a b : expr) | EMinus (a b : expr)
 | ELt (a b : expr) | ELe (a b : expr) | EEq (a b : expr) | EAnd (a b : expr) | EIsNone (e : expr) | ENot (e : expr)
 | EIf (c a b : expr)                          (* a if c else b *)
 | EIndex (l i : expr)                         (* l[i], Python indexing: negative i counts from the end *)
@@ -96,7 +96,7 @@ Fixpoint same_len {A B} (a : list A) (b : list B) : bool :=
   end.
 
 (* tuple unpacking: a value that is not a tuple of the right length leaves VErr in every name *)
-Fixpoint bind (p : pat) (v : value) (e : env) : env :=
+Fixpoint bind_tuple (p : pat) (v : value) (e : env) : env :=
   match p with
   | PVar x => set e x v
   | PTup ps =>
@@ -105,10 +105,17 @@ Fixpoint bind (p : pat) (v : value) (e : env) : env :=
        | [] => e
        | p :: ps' =>
          match vs with
-         | v :: vs' => go ps' vs' (bind p v e)
-         | [] => go ps' [] (bind p VErr e)
+         | v :: vs' => go ps' vs' (bind_tuple p v e)
+         | [] => go ps' [] (bind_tuple p VErr e)
          end
        end) ps (match v with VTuple vs => if same_len vs ps then vs else [] | _ => [] end) e
+  end.
+
+(* binding a loop / comprehension target; a plain name needs no look at the value *)
+Definition bind (p : pat) (v : value) (e : env) : env :=
+  match p with
+  | PVar x => set e x v
+  | PTup _ => bind_tuple p v e
   end.
 
 Definition of_opt_expr (o : option SigStr.expr) : value := match o with Some e => VExprV e | None => VNone end.
@@ -180,11 +187,11 @@ Section Eval.
     | EVar v => get e v
     | ENone => VNone
     | EInt z => VInt z
-    | EStr t => VStr t
+    | EText t => VStr t
     | EKind k => VKind k
     | EEmpty => VEmpty
     | ENil => VTuple []
-    | EAttr a f => get_field (eval a e) f
+    | EField a f => get_field (eval a e) f
     | ELen a => match as_list (eval a e) with Some l => VInt (Z.of_nat (length l)) | None => VErr end
     | EAdd a b =>
       match eval a e, eval b e with
@@ -192,7 +199,7 @@ Section Eval.
       | VList p, VList q => VList (p ++ q)
       | _, _ => VErr
       end
-    | ESub a b => match eval a e, eval b e with VInt p, VInt q => VInt (p - q) | _, _ => VErr end
+    | EMinus a b => match eval a e, eval b e with VInt p, VInt q => VInt (p - q) | _, _ => VErr end
     | ELt a b => match eval a e, eval b e with VInt p, VInt q => VBool (p <? q) | _, _ => VErr end
     | ELe a b => match eval a e, eval b e with VInt p, VInt q => VBool (p <=? q) | _, _ => VErr end
     | EEq a b => match value_eqb (eval a e) (eval b e) with Some r => VBool r | None => VErr end
@@ -243,28 +250,40 @@ Section Eval.
     | XCons a r => eval a e :: eval_list r e
     end.
 
-  Fixpoint produce (ps : prods) (e : env) : list value :=
-    match ps with
-    | QNil => []
-    | QEmit a r => eval a e :: produce r e
-    | QLet p a r => produce r (bind p (eval a e) e)
-    | QFor p src body r =>
-      match (match src with SExpr x => as_list (eval x e) | SGen g => Some (produce g e) end) with
-      | Some vs => flat_map (fun v => produce body (bind p v e)) vs ++ produce r e
-      | None => VErr :: produce r e
-      end
-    | QIf c th el r =>
-      match eval c e with
-      | VBool true => produce th e ++ produce r e
-      | VBool false => produce el e ++ produce r e
-      | _ => VErr :: produce r e
-      end
-    | QAssert c r =>
-      match eval c e with
-      | VBool true => produce r e
-      | _ => VErr :: produce r e
-      end
-    end.
+  (* Loop bodies are run by `body_run`; the levels below give loops nested at most twice inside a loop body (the
+     translated code has none).  Stratifying like this keeps a loop body a closed term `produce1 body env`. *)
+  Section Level.
+    Variable body_run : prods -> env -> list value.
+
+    Fixpoint produce_with (ps : prods) (e : env) : list value :=
+      match ps with
+      | QNil => []
+      | QEmit a r => eval a e :: produce_with r e
+      | QLet p a r =>
+        produce_with r (bind p (eval a e) e)
+      | QFor p src body r =>
+        match (match src with SExpr x => as_list (eval x e) | SGen g => Some (produce_with g e) end) with
+        | Some vs => flat_map (fun v => body_run body (bind p v e)) vs ++ produce_with r e
+        | None => VErr :: produce_with r e
+        end
+      | QIf c th el r =>
+        match eval c e with
+        | VBool true => produce_with th e ++ produce_with r e
+        | VBool false => produce_with el e ++ produce_with r e
+        | _ => VErr :: produce_with r e
+        end
+      | QAssert c r =>
+        match eval c e with
+        | VBool true => produce_with r e
+        | _ => VErr :: produce_with r e
+        end
+      end.
+  End Level.
+
+  Definition produce0 : prods -> env -> list value := produce_with (fun _ _ => [VErr]).   (* too deep *)
+  Definition produce1 : prods -> env -> list value := produce_with produce0.
+  Definition produce2 : prods -> env -> list value := produce_with produce1.
+  Definition produce : prods -> env -> list value := produce_with produce2.
 End Eval.
 
 (* The two pieces of code, as the translator emits them. *)
